@@ -24,11 +24,13 @@ type c04Scn struct {
 	Enc      bool   `json:"encrypt"`
 	// encryption roll-out stage: every node has the keyring, accepts cleartext as well
 	// (GossipVerifyIncoming off) and odd-numbered nodes still send cleartext (GossipVerifyOutgoing off)
-	Rollout  bool          `json:"encryption_rollout_stage,omitempty"`
-	Label    string        `json:"label"`
-	JoinMode string        `json:"join_mode"` // burst | staggered
-	Ops      int           `json:"ops"`
-	Dur      time.Duration `json:"duration_ns"`
+	Rollout bool `json:"encryption_rollout_stage,omitempty"`
+	// AwarenessMaxMultiplier: -1 = library default (8); 0 and 1 are the smallest values a hand-built configuration can carry
+	Awareness int           `json:"awareness_max_multiplier"`
+	Label     string        `json:"label"`
+	JoinMode  string        `json:"join_mode"` // burst | staggered
+	Ops       int           `json:"ops"`
+	Dur       time.Duration `json:"duration_ns"`
 }
 
 // healthyTap watches every packet and stream for accusations.
@@ -192,6 +194,9 @@ func runC04(run *Run, seed int64, sc c04Scn, rng *rand.Rand) (out []*c01Result, 
 				}
 			}
 			cf.PushPullInterval = 10 * time.Second
+			if sc.Awareness >= 0 {
+				cf.AwarenessMaxMultiplier = sc.Awareness
+			}
 		}})
 	}
 	// join phase
@@ -304,7 +309,7 @@ func runC04(run *Run, seed int64, sc c04Scn, rng *rand.Rand) (out []*c01Result, 
 			}
 			a := live[rng.Intn(len(live))]
 			b := live[rng.Intn(len(live))]
-			switch op := rng.Intn(8); op {
+			switch op := rng.Intn(9); op {
 			case 0:
 				metaGen++
 				a.Del.SetMeta([]byte(fmt.Sprintf("meta-%s-%d", a.Name, metaGen)))
@@ -349,6 +354,13 @@ func runC04(run *Run, seed int64, sc c04Scn, rng *rand.Rand) (out []*c01Result, 
 					go func() { _, _ = a.ML().Join([]string{b.EP.Addr}) }()
 					run.Cell("op", "rejoin")
 				}
+			case 8:
+				// a backlog of several hundred one-byte user broadcasts at one node: they ride behind its
+				// pings and acks, hundreds to a packet
+				for k := 0; k < 300+rng.Intn(300); k++ {
+					a.Del.Queue([]byte{byte(k)})
+				}
+				run.Cell("op", "broadcast-backlog")
 			case 7:
 				// key rotation, one phase per poll: install everywhere, use everywhere, remove the old one
 				if key != nil && !sc.Rollout && rotPhase == 0 {
@@ -465,18 +477,19 @@ func TestC04(t *testing.T) {
 		}
 		rng := run.RNG(id)
 		sc := c04Scn{
-			N:        2 + rng.Intn(run.Pick(11, 15)),
-			Latency:  []string{"zero", "uniform", "bimodal"}[i%3],
-			PV:       []int{5, 5, 2, 1, 0, 3}[rng.Intn(6)],
-			Indirect: rng.Intn(4),
-			TCPPing:  rng.Intn(3) > 0,
-			Compress: rng.Intn(2) == 0,
-			Enc:      rng.Intn(3) == 0,
-			Rollout:  i%4 == 1,
-			Label:    []string{"", "", "cluster-a"}[rng.Intn(3)],
-			JoinMode: []string{"burst", "staggered"}[rng.Intn(2)],
-			Ops:      rng.Intn(12),
-			Dur:      time.Duration(40+rng.Intn(80)) * time.Second,
+			N:         2 + rng.Intn(run.Pick(11, 15)),
+			Latency:   []string{"zero", "uniform", "bimodal"}[i%3],
+			PV:        []int{5, 5, 2, 1, 0, 3}[rng.Intn(6)],
+			Indirect:  rng.Intn(4),
+			TCPPing:   rng.Intn(3) > 0,
+			Compress:  rng.Intn(2) == 0,
+			Enc:       rng.Intn(3) == 0,
+			Rollout:   i%4 == 1,
+			Awareness: []int{-1, -1, 0, 1}[i%4],
+			Label:     []string{"", "", "cluster-a"}[rng.Intn(3)],
+			JoinMode:  []string{"burst", "staggered"}[rng.Intn(2)],
+			Ops:       rng.Intn(12),
+			Dur:       time.Duration(40+rng.Intn(80)) * time.Second,
 		}
 		if i%7 == 0 {
 			sc.N = 16
@@ -512,7 +525,7 @@ func TestC04(t *testing.T) {
 		}
 	}
 	if !run.Replaying() {
-		run.Require("op|update", "op|leave", "op|leave-again", "op|late-join", "op|broadcast", "op|best-effort", "op|reliable")
+		run.Require("op|broadcast-backlog", "op|update", "op|leave", "op|leave-again", "op|late-join", "op|broadcast", "op|best-effort", "op|reliable")
 	}
 	run.Complete()
 	if run.Violations() > 0 {
